@@ -502,17 +502,14 @@ def _opt(v):
     return Word('none') if v is None else v
 
 
-def _cubic_final_t(s):
-    """Parameters after cubic_curve's closure step, computed in floats exactly as the code does."""
+def _cubic_norms(s):
+    """The only floating-point inputs of cubic_curve's parameter logic: the Euclidean norms between
+    consecutive INPUT points and from the last point back to the first.  Closure of periodic input,
+    the closing parameter and the cumulative chord-length sums are computed by the Lean model."""
     x = np.array(s['x'], dtype=float)
-    t = s['t']
-    if s['boundary'] == 'PERIODIC' and not np.allclose(x[0], x[-1], rtol=_cp_tols()[0], atol=_cp_tols()[1]):
-        x = np.append(x, [x[0]], axis=0)
-        if t is not None:
-            t = list(t) + [t[-1] + float(np.linalg.norm(x[0] - x[-2]))]
-    if t is None:
-        t = _chord(x)
-    return [float(v) for v in t]
+    chords = [float(np.linalg.norm(b - a)) for a, b in zip(x[:-1], x[1:])]
+    closing = float(np.linalg.norm(x[0] - x[-1]))
+    return chords, closing
 
 
 def _cp_tols():
@@ -524,21 +521,21 @@ def _cp_tols():
 
 
 def _loft_prologue(sp, s):
-    """What loft does before its linear algebra, with the REAL make_splines_identical (property C12's
-    subject): identical section bases, section control nets, centre distances."""
+    """Inputs of the loft model that are other properties' subjects, taken from the REAL code: the
+    sections after make_splines_identical (property C12) and the Euclidean distances between the
+    centres of consecutive sections (center() is property C16; the norm is a float square root).  The
+    cumulative sum of the distances, the lofting knot vector and all linear algebra are the model's."""
     objs = [gen.mk_object(sp, o).clone().set_dimension(3) for o in s['sections']]
     n = len(objs)
-    dist = None
+    cdists = []
     if n >= 4:
         x = [c.center() for c in objs]
-        dist = [0.0]
-        for x1, x0 in zip(x[1:], x[:-1]):
-            dist.append(dist[-1] + float(np.linalg.norm(x1 - x0)))
+        cdists = [float(np.linalg.norm(x1 - x0)) for x1, x0 in zip(x[1:], x[:-1])]
     cls = type(objs[0])
     for i in range(n):
         for j in range(i + 1, n):
             cls.make_splines_identical(objs[i], objs[j])
-    return objs, dist
+    return objs, cdists
 
 
 def model_line(s):
@@ -551,7 +548,9 @@ def model_line(s):
         return line('c14_lsq_curve', gen.enc_basis(s['basis']), gen.TOL, s['t'], s['x'])
     if k == 'cubic':
         rt, at = _cp_tols()
-        return line('c14_cubic', BOUNDARIES[s['boundary']], gen.TOL, rt, at, s['x'], _cubic_final_t(s), _opt(s['tangents']))
+        chords, closing = _cubic_norms(s)
+        return line('c14_cubic', BOUNDARIES[s['boundary']], gen.TOL, rt, at, s['x'], _opt(s['t']), chords, closing,
+                    _opt(s['tangents']))
     if k == 'bezier':
         return line('c14_bezier', gen.TOL, s['pts'], s['quadratic'], s['relative'])
     if k == 'error':
@@ -569,12 +568,12 @@ def model_line(s):
         if len(s['sections']) < 3:
             return line('c14_nop', _spec_hash(s))
         try:
-            objs, dist = _loft_prologue(_sp(), s)
+            objs, cdists = _loft_prologue(_sp(), s)
         except Exception:  # noqa: BLE001 - make_splines_identical failed: oracle-only case
             return line('c14_nop', _spec_hash(s))
         bases = [gen.spec_of_basis(b) for b in objs[0].bases]
         return line('c14_loft', [gen.enc_basis(b) for b in bases], gen.TOL,
-                    [_enc_tensor(o.controlpoints) for o in objs], dist if dist is not None else [])
+                    [_enc_tensor(o.controlpoints) for o in objs], cdists)
     raise AssertionError(k)
 
 
@@ -1211,6 +1210,10 @@ def classify(s, res=None):
         return 'lsq-flat-layout-reshape'
     if k == 'loft' and s['pardim'] == 2 and len(s['sections']) == 2:
         return 'volume-loft-two-sections'
+    if k == 'loft' and 'ValueError: out of range' in msgs and any(b['periodic'] >= 0 for sec in s['sections'] for b in sec['bases']):
+        # root cause in make_splines_identical (C12 class periodic-rounded-ghost-knots-out-of-range):
+        # after reparam/lower_periodic a knot is 1+1ulp and continuity() rejects it without tolerance
+        return 'loft-periodic-rounded-knots-out-of-range'
     return None
 
 
